@@ -4,12 +4,12 @@
 (* L2: every recorded value is compared with the specification's own computation     *)
 (* (DamLev.tla, Jaccard.tla, LimitSort.tla, Tokenize.tla); L3: the laws of C15, C16, *)
 (* C17 and the access bounds of C19 are evaluated on the recorded values.            *)
-EXTENDS TVCommon, DamLev, Jaccard, LimitSort
+EXTENDS TVCommon, Score, LimitSort
 
 VARIABLES l, sizes, memoD, memoJ, memoS, viol, drift, cnt
 vars == <<l, sizes, memoD, memoJ, memoS, viol, drift, cnt>>
 
-PropIds == {"C01","C15","C16","C17","C19","C06","ood","L2"}
+PropIds == {"C01","C05","C09","C15","C16","C17","C19","C06","ood","L2"}
 E == Rec[l]
 Res(f, d, n) == [f |-> f, d |-> d, n |-> n]
 Bump(c, names) ==
@@ -94,10 +94,53 @@ TokChecks ==
          \o Check(proj = mine.words, l, "L2", "words differ from Tokenize.tla"),
             <<"C15">>)
 
+\* the real text_match / score / filter / highlight on a pair of texts: literal texts generated by TLC from the
+\* bounded model (GEN_TextMatch.tla: rt, qt) or texts tokenised by the crate (rtok, qtok)
+SameM(lm, sm) ==
+  /\ lm.offset = sm.offset /\ lm.s = sm.s /\ lm.e = sm.e /\ lm.sub = <<0, sm.sub>>
+  /\ lm.t10 = sm.t10 /\ lm.ct = sm.ct /\ lm.func = sm.func /\ lm.fin = sm.fin
+SameMs(ls, ss) == Len(ls) = Len(ss) /\ \A i \in DOMAIN ls : SameM(ls[i], ss[i])
+TmChecks ==
+  LET rt == IF Has(E, "rt") THEN E.rt ELSE E.rtok
+      qt == IF Has(E, "qt") THEN E.qt ELSE E.qtok
+      rating == IF Has(E, "rating") THEN E.rating ELSE 0
+  IN IF Has(E, "panic") THEN Res(<<Finding(l, "C01", "matcher / scorer / highlighter panicked")>>, <<>>, <<"C01">>)
+     ELSE
+     LET ev == EvalRecord(rt, rating, qt, <<SL>>, <<SR>>)
+         R  == E.res
+         p  == ParseHL(R.hl)
+         sentinelFree == SL \notin SeqRange(rt.source) /\ SR \notin SeqRange(rt.source)
+     IN Res(
+          \* L3: markup of the highlighted title (C09) and span length (C05) on what the code returned
+          (IF sentinelFree THEN
+             Check(p.ok, l, "C09", "markers do not alternate")
+          \o (IF p.ok /\ Len(p.plain) = Len(StripNul(rt.source)) THEN
+                Flatten([k \in DOMAIN p.spans |->
+                  LET sp == p.spans[k] IN
+                  IF sp.b <= sp.a THEN <<Finding(l, "C09", "empty highlighted span")>>
+                  ELSE LET ss == SpanInSource(rt.source, sp)
+                           ws == { i \in DOMAIN rt.words : rt.words[i].s = ss.s } IN
+                       Check(ws # {} /\ \A i \in ws : ss.e <= rt.words[i].e, l, "C09", "span is not a prefix of a title word")
+                    \o (IF Len(qt.words) > 0 THEN Check(ss.e - ss.s <= (Last(qt.words).e - qt.words[1].s) + 1, l, "C05",
+                                                         "highlighted span longer than the typed stretch plus one") ELSE <<>>)])
+               \o (IF R.pass /\ Len(qt.words) > 0 THEN Check(Len(p.spans) >= 1, l, "C09", "passing record for a query with a word has no highlight") ELSE <<>>)
+              ELSE <<>>)
+           ELSE <<>>)
+          \o AccFindings(E, l),
+          \* L2
+             Check(SameMs(R.rm, ev.tm.rm) /\ SameMs(R.qm, ev.tm.qm), l, "L2", "text match differs from TextMatch.tla")
+          \o Check(R.scores.big \/ R.scores.v = ev.scores, l, "L2", "scores differ from Score.tla")
+          \o Check(R.pass = ev.pass, l, "L2", "filter verdict differs from Score.tla")
+          \o Check(R.hl = ev.title, l, "L2", "highlighted title differs from Highlight.tla")
+          \o Check(ev.safe, l, "L2", "an unsigned subtraction of the matcher would underflow (ArithSafe)"),
+          <<"C01", "C09", "C05", "C19">>)
+
 Apply(r) ==
   /\ viol'  = viol \o r.f
   /\ drift' = drift \o r.d
   /\ cnt'   = Bump(cnt, r.n)
+
+TvTm == /\ E.op = "tm" /\ ~Has(E, "unsupported") /\ Apply(TmChecks) /\ UNCHANGED <<sizes, memoD, memoJ, memoS>>
 
 TvDl  == /\ E.op = "dl" /\ ~Has(E, "unsupported")
          /\ Apply(DlChecks)
@@ -128,7 +171,7 @@ TvCase == /\ E.op = "case"
 TvOther == /\ (E.op \in {"header", "chartable", "endcase"} \/ Has(E, "unsupported"))
            /\ UNCHANGED <<sizes, memoD, memoJ, memoS, viol, drift, cnt>>
 
-TvNext == l <= NRec /\ l' = l + 1 /\ (TvDl \/ TvJac \/ TvLs \/ TvTok \/ TvNew \/ TvCase \/ TvOther)
+TvNext == l <= NRec /\ l' = l + 1 /\ (TvDl \/ TvJac \/ TvLs \/ TvTok \/ TvTm \/ TvNew \/ TvCase \/ TvOther)
 TvInit == l = 1 /\ sizes = <<>> /\ memoD = <<>> /\ memoJ = <<>> /\ memoS = <<>> /\ viol = <<>> /\ drift = <<>>
           /\ cnt = [p \in PropIds |-> 0]
 TvSpec == TvInit /\ [][TvNext]_vars
